@@ -5,6 +5,7 @@ package harness
 import (
 	"fmt"
 	"sort"
+	"strings"
 	"testing/synctest"
 	"time"
 )
@@ -47,10 +48,11 @@ type Scenario struct {
 	Spec        []SpecStep `json:"spec,omitempty"` // a TLC behaviour of Raft.tla to be replayed step by step
 	StopOnDrift bool       `json:"stop_on_drift,omitempty"`
 	Family      string     `json:"family,omitempty"`
-	Attack      string     `json:"attack,omitempty"` // weakening whose TLC counterexample this schedule is
+	Attack      string     `json:"attack,omitempty"`       // weakening whose TLC counterexample this schedule is
 	NoStart     []string   `json:"no_start,omitempty"`     // created but not started by the skeleton
 	NoBootstrap []string   `json:"no_bootstrap,omitempty"` // voters whose Bootstrap call is left to the program
 	LatencyUS   int        `json:"latency_us,omitempty"`
+	JitterUS    int        `json:"jitter_us,omitempty"`
 }
 
 type Runner struct {
@@ -265,6 +267,32 @@ func (r *Runner) do(s Stim) bool {
 	case "controlled":
 		c.SetControlled(s.On)
 		c.Settle()
+	case "hold":
+		c.net.Hold(orStar(s.From), orStar(s.To), true)
+	case "unhold":
+		c.net.Hold(orStar(s.From), orStar(s.To), false)
+	case "gateonly":
+		// from now on only the listed node's timer is gated; everybody else runs free
+		c.mu.Lock()
+		if c.gatedOnly == nil {
+			c.gatedOnly = map[string]bool{}
+		}
+		c.gatedOnly[s.N] = true
+		var chs []chan struct{}
+		for _, o := range c.nodes {
+			if o.parked && !c.gatedOnly[o.id] && !o.gateOpen {
+				chs = append(chs, o.gateCh)
+				o.gateCh = make(chan struct{})
+			}
+		}
+		c.mu.Unlock()
+		for _, ch := range chs {
+			close(ch)
+		}
+		c.Settle()
+	case "healthy":
+		// brackets a period in which leader s.N is kept in prompt contact with majority s.Val ("a,c")
+		c.rec.Emit("healthy", Ev{"on": s.On, "leader": s.N, "maj": strings.Split(s.Val, ",")})
 	case "api":
 		return r.api(s)
 	case "mark":
@@ -344,6 +372,13 @@ func (r *Runner) api(s Stim) (ok bool) {
 	return true
 }
 
+func orStar(x string) string {
+	if x == "" {
+		return "*"
+	}
+	return x
+}
+
 func contains(l []string, x string) bool {
 	for _, y := range l {
 		if x == y {
@@ -367,6 +402,7 @@ func (r *Runner) setup() {
 	c.controlled = sc.Controlled
 	c.net.auto = sc.Auto
 	c.net.latency = time.Duration(sc.LatencyUS) * time.Microsecond
+	c.net.jitter = time.Duration(sc.JitterUS) * time.Microsecond
 	members := append([]string{}, sc.Voters...)
 	for _, id := range sc.Voters {
 		n := c.AddNode(id)
@@ -406,7 +442,11 @@ func (r *Runner) heal() {
 		c.node(id).fsm.ReleaseAll()
 	}
 	c.net.Heal()
-	c.net.latency = 0
+	c.net.latency, c.net.jitter = 0, 0
+	c.mu.Lock()
+	c.net.hold = map[[2]string]bool{}
+	c.gatedOnly = nil
+	c.mu.Unlock()
 	c.net.SetAuto(true)
 	c.SetControlled(false)
 	for _, id := range ids {
